@@ -131,8 +131,35 @@ static void mini_case(FT value)
         vrt::evals();
         if (S(ss->raw_buffer(), ss->size()) != "<" + want + ">")
             vrt::violation("C13:string_stream:differs-from-printf-g", sfmt("value=%s got=%s want=%s", dbl_bits(dv).c_str(), S(ss->raw_buffer(), ss->size()).c_str(), want.c_str()));
+        // the same into a stream that is already nearly full: the rendering ends just below, at and just beyond the
+        // in-object capacity (256) / the first heap capacity (512), and more text follows
+        for (size_t cap : {size_t(256), size_t(512)})
+            for (int d = -1; d <= 1; ++d) {
+                if (want.size() + 2 > cap) continue;
+                const size_t fill = cap - want.size() + static_cast<size_t>(d + 1) - 1;
+                vrt::Box<ST::string_stream> s2;
+                const S prefix(fill, 'p');
+                s2->append(prefix.data(), prefix.size());
+                *s2 << value << "tail";
+                vrt::evals();
+                if (S(s2->raw_buffer(), s2->size()) != prefix + want + "tail")
+                    vrt::violation("C13:string_stream:nearly-full-stream", sfmt("value=%s after %zu bytes got ...%s", dbl_bits(dv).c_str(), fill, S(s2->raw_buffer(), s2->size()).substr(fill > 4 ? fill - 4 : 0).c_str()));
+                vrt::count("mini.nearly_full_stream_inserts");
+            }
     }
     vrt::count("mini.values");
+}
+
+// A conversion_result is an out-parameter: what an earlier conversion left in it must not show.
+static void predirty(ST::conversion_result &r)
+{
+    static unsigned n = 0;
+    static const ST::string full("4.5"), part("7x");
+    switch (n++ % 3) {
+    case 0: break;
+    case 1: (void)full.to_double(r); vrt::count("parse.result_object_reused"); break;
+    default: (void)part.to_float(r); vrt::count("parse.result_object_reused"); break;
+    }
 }
 
 static void parse_case(const S &text)
@@ -148,6 +175,7 @@ static void parse_case(const S &text)
         bool wok = !empty && endp != c, wfull = empty || endp == c + text.size();
         if (empty) want = 0;
         ST::conversion_result r;
+        predirty(r);
         double got = st->to_double(r), got2 = st->to_double();
         vrt::evals(2);
         if (memcmp(&got, &want, 8) != 0 || r.ok() != wok || r.full_match() != wfull)
@@ -162,6 +190,7 @@ static void parse_case(const S &text)
         bool wok = !empty && endp != c, wfull = empty || endp == c + text.size();
         if (empty) want = 0;
         ST::conversion_result r;
+        predirty(r);
         float got = st->to_float(r), got2 = st->to_float();
         vrt::evals(2);
         if (memcmp(&got, &want, 4) != 0 || r.ok() != wok || r.full_match() != wfull)
